@@ -4,11 +4,10 @@ CONSTANTS
   Backs = {"b1", "b2", "b3"}
   BackSeq <- MCBackSeq
   MethodExcluded = FALSE
-  PurgeEvictsLive = TRUE
+  PurgeEvictsLive = FALSE
   ExpiresIgnored = FALSE
   RejectUnpins = FALSE
   MaxOps = 8
   MaxTimeouts = 1
 VIEW PropView
-INVARIANTS Sticky PinsAreAnswered TxAgrees
-PROPERTIES Balanced StickyStep
+INVARIANTS Reach_TxAttributed
